@@ -148,19 +148,32 @@ def inf_level(p, res):
         else:
             res.bad(F('INF-LEVEL', f, outer[0], '%s = %s' % (var, ' | '.join(src_of(d) for d in defs if d is not None)),
                       'what an element adds to the indentation level must be %s, independent of should_format(): an element that stays on its parent\'s line is still an open element for every line inside it' % want[0]))
-    gi = p.func('markup.format.html.get_indent')
-    s = src_of(gi.node)
-    if "if not parent or is_snippet(parent) or (parent.name and parent.name in state.config.options.get('output.formatSkip')):\n        return 0\n    return 1" in s:
-        res.ok('get_indent: 0 for top-level, snippet parents and formatSkip parents, else 1')
-    else:
-        res.bad(F('INF-LEVEL', gi, gi.node, 'get_indent body', 'get_indent must be 0 for top level / snippet parent / formatSkip parent and 1 otherwise'))
-    # closing line: offset logic of the last child
+    from .tablecheck import check_table
+    check_table(p, res, 'INF-LEVEL', 'markup.format.html.get_indent', 'get_indent must be 0 for top level / snippet parent / formatSkip parent and 1 otherwise')
+    # closing line: after the last formatted child the parent's closing tag goes on its own line one level up
+    from .. import shape
+    from ..linear import linear
     el = p.func('markup.format.html.element')
-    s = src_of(el.node)
-    if 'if fmt and index == len(items) - 1 and state.parent:\n        offset = 0 if is_snippet(state.parent) else 1\n        out.push_newline(out.level - offset)' in s:
-        res.ok('closing tag line: newline at level - 1 after the last formatted child')
+    V = shape.View(p, el, inline=False)
+    cands = [c for c in V.calls('push_newline') if c.args and isinstance(V.xe(c.args[0]), ast.BinOp)]
+    if len(cands) == 1:
+        c = cands[0]
+        facts = {k: v for k, v in V.facts(c, expand_defs=False)}
+        arg = V.xe(c.args[0])
+        lin = None
+        off = None
+        if isinstance(arg, ast.BinOp) and isinstance(arg.op, ast.Sub):
+            lin = linear(arg.left)
+            off = src_of(arg.right)
+        guard_ok = any(v and 'should_format(' in V.x(ast.parse(k, mode='eval').body) for k, v in facts.items()) and facts.get('index == len(items) - 1') is True and facts.get('state.parent') is True
+        if lin == {'out.level': 1} and off in ('(0 if is_snippet(state.parent) else 1)', '0 if is_snippet(state.parent) else 1') and guard_ok:
+            res.ok('closing tag line: newline at level - 1 after the last formatted child')
+        elif lin == {'out.level': 1} and guard_ok is False and (facts.get('index == len(items) - 1') is not True):
+            res.bad(F('INF-LEVEL', el, c, src_of(c), "the parent's closing line is emitted after a child that is not the last one"))
+        else:
+            res.undecided('closing line of the last child: %s under %s' % (src_of(c), sorted(facts)), 'push_newline(level - (0 if snippet parent else 1)) after the last formatted child of a parent')
     else:
-        res.bad(F('INF-LEVEL', el, el.node, 'closing line of the last child', 'after the last formatted child the parent\'s closing tag goes on its own line one level up'))
+        res.undecided('closing line of the last child', 'one push_newline(level - offset) expected')
     res.require_floor(4)
 
 
@@ -183,22 +196,10 @@ def inf_comment(p, res):
         for n in f.body_nodes():
             if isinstance(n, ast.Attribute) and n.attr in ('trigger', 'enabled') and 'comment' in src_of(n.value):
                 res.bad(F('INF-COMMENT', f, n, src_of(n), 'comment state consulted outside the comment module'))
-    # comment_node_before/after: emission only through output(), guarded by should_comment
+    from .tablecheck import check_table
     for fq in ('markup.format.comment.comment_node_before', 'markup.format.comment.comment_node_after'):
-        f = p.func(fq)
-        calls = [c for c in f.body_nodes() if isinstance(c, ast.Call) and isinstance(c.func, ast.Name)]
-        names = sorted(src_of(c.func) for c in calls)
-        ifs = [n for n in f.body_nodes() if isinstance(n, ast.If)]
-        if names == ['output', 'should_comment'] and len(ifs) == 1 and 'should_comment(node, state)' in src_of(ifs[0].test):
-            res.ok('%s: output() behind should_comment()' % f.short)
-        else:
-            res.bad(F('INF-COMMENT', f, f.node, ' / '.join(names), 'comment emission must be exactly output(..) guarded by should_comment(node, state)'))
-    sc = p.func('markup.format.comment.should_comment')
-    s = src_of(sc.node)
-    if 'if not comment.enabled or not comment.trigger or (not node.name) or (not node.attributes):\n        return False' in s and 'if attr.name and attr.name in comment.trigger:\n            return True' in s:
-        res.ok('should_comment: enabled, trigger, named node with a trigger attribute')
-    else:
-        res.bad(F('INF-COMMENT', sc, sc.node, 'should_comment body', 'comment condition changed'))
+        check_table(p, res, 'INF-COMMENT', fq, 'comment emission must be exactly output(..) guarded by should_comment(node, state)')
+    check_table(p, res, 'INF-COMMENT', 'markup.format.comment.should_comment', 'a comment is written for enabled comments with triggers on a named node that has a trigger attribute')
     # output(): reads attributes, never writes the node
     out = p.func('markup.format.comment.output')
     for n in out.body_nodes():
